@@ -265,6 +265,23 @@ def run_mm(case, ctx):
         if len(smp) >= 2 and (len(observed) >= 3 or missing or internal or nroots >= 2 or
                               (anc is not None and anc[1] not in observed)):
             nontriv = True
+    # history on one Tree object moved by seek / seek_index / prev between calls with identical arguments: the answer
+    # depends on the tree it is on, not on an earlier call
+    T = len(bps) - 1
+    if T >= 2 and smp:
+        ctx.label("moved_tree_history")
+        tree = tskit.Tree(ts)
+        order = list(range(T - 1, -1, -1)) + [0, T - 1, T // 2]
+        for k, i in enumerate(order):
+            if k % 3 == 0:
+                tree.seek_index(i)
+            elif k % 3 == 1:
+                tree.seek(bps[i])
+            elif tree.index == i + 1:
+                tree.prev()
+            else:
+                tree.seek_index(i)
+            check_one(ctx, tskit, spec, ts, tree, bps[i], geno, alleles, anc, W="map_mutations[moved tree]")
     ctx.label("missing_internal_sample", miss_internal)
     ctx.label("missing_unary_sample", miss_unary)
     ctx.label("mutations>=2", total_muts >= 2)
